@@ -47,6 +47,26 @@ impl<V> HashTable<ZobristHash, V> {
     }
 }
 
+#[cfg(inkayaku_verif)]
+pub mod verif {
+    //! Test-only public handle to the private `HashTable` (compiled only with `--cfg inkayaku_verif`).
+    use inkayaku_board::constants::ZobristHash;
+
+    use super::HashTable;
+
+    pub struct TableHandle(HashTable<ZobristHash, u64>);
+
+    impl TableHandle {
+        pub fn new(capacity: usize) -> Self { Self(HashTable::new(capacity)) }
+        pub fn clear(&mut self) { self.0.clear(); }
+        pub fn put(&mut self, key: ZobristHash, value: u64) { self.0.put(key, value); }
+        pub fn get(&self, key: ZobristHash) -> Option<u64> { self.0.get(key).copied() }
+        pub fn len(&self) -> usize { self.0.len() }
+        pub fn load_factor(&self) -> f32 { self.0.load_factor() }
+        pub fn queue_len(&self) -> usize { self.0.entry_list.len() }
+    }
+}
+
 // #[cfg(test)]
 // mod test {
 //     use crate::inkayaku::table::HashTable;
